@@ -163,6 +163,8 @@ def run(ctx: Ctx):
     _delta_dims(ctx)
     # ---- S5 store refuses exactly the counts for which a divisor on its path is zero ------------------------------
     _store_threshold(ctx)
+    # ---- S1' store only reads the accumulated statistics: no in-place operation on them or on their aliases -------
+    _store_is_read_only(ctx)
     plumbing(ctx, "S2")
     return dict(
         explanation=(
@@ -299,6 +301,8 @@ def _store_threshold(ctx: Ctx):
                 den = n.right
             elif isinstance(n, ast.AugAssign) and isinstance(n.op, ast.Div):
                 den = n.value
+            elif isinstance(n, ast.Call) and isinstance(n.func, ast.Attribute) and n.func.attr in ("div", "div_", "true_divide") and len(n.args) == 1:
+                den = n.args[0]
             if den is None:
                 continue
             cnt = [x for x in ast.walk(den) if is_count(x) and not (isinstance(x, ast.Attribute) and False)]
@@ -324,7 +328,8 @@ def _store_threshold(ctx: Ctx):
                 else:
                     col.undecided(f"C18: refusal test `{u(n.test)}` of store")
         if not divisors:
-            raise AnalysisError("C18: store divides by nothing that depends on the count")
+            col.undecided("C18: store divides by nothing that depends on the count")
+            continue
         got = max(ths) if ths else 0
         col.ob("G12", "S5", f"{rel}::MeanVarianceNormalization.store::refuses-exactly-undefined-counts[bessel={bessel}]",
                got == need,
@@ -444,11 +449,56 @@ def _discount_matrix(ctx: Ctx, tdr):
                f"axis {time_axis}", "_rl.py", rets[0].lineno, sample=dict(ci=ci, cj=cj, keep=keep, axis=axis, r_first=r_first))
 
 
+def _store_is_read_only(ctx: Ctx):
+    """The accumulated statistics are the state that makes partition / order invariance hold; `store` may be called
+    with delete_stats=False and followed by more accumulation, so it must not modify count / sum / sumsq: no in-place
+    method (trailing underscore) and no augmented assignment on them or on a local alias of them."""
+    from sa.defuse import ReachingDefs
+    col, pkg = ctx.col, ctx.pkg
+    f = pkg.func("_feats::MeanVarianceNormalization.store")
+    rel = f.module.relname
+    rd = ReachingDefs(f.node)
+    STAT = ("self.count", "self.sum", "self.sumsq")
+
+    def is_alias(e, depth=0):
+        if depth > 6:
+            return False
+        if isinstance(e, ast.Attribute) and u(e) in STAT:
+            return True
+        if isinstance(e, ast.Name):
+            for d in rd.defs_of(e):
+                v = d.value
+                if v is None:
+                    continue
+                if d.kind == "unpack" and isinstance(v, ast.Tuple) and d.slot and len(d.slot) == 1 and d.slot[0] < len(v.elts):
+                    v = v.elts[d.slot[0]]
+                if d.kind in ("assign", "unpack") and is_alias(v, depth + 1):
+                    return True
+            return False
+        # an in-place method returns its receiver
+        if isinstance(e, ast.Call) and isinstance(e.func, ast.Attribute) and e.func.attr.endswith("_") and not e.func.attr.startswith("_"):
+            return is_alias(e.func.value, depth + 1)
+        return False
+    bad = []
+    for n in own_nodes(f.node):
+        if isinstance(n, ast.Call) and isinstance(n.func, ast.Attribute) and n.func.attr.endswith("_") and not n.func.attr.startswith("_") \
+                and is_alias(n.func.value):
+            bad.append(n)
+        if isinstance(n, ast.AugAssign) and is_alias(n.target):
+            bad.append(n)
+    col.ob("G16", "S1", f"{rel}::MeanVarianceNormalization.store::statistics-are-not-modified", not bad,
+           f"`{u(bad[0])[:80] if bad else ''}` modifies an accumulated statistic (or a local alias of it) in place: with "
+           f"delete_stats=False a later accumulate()/store() pools the overwritten values, so the stored statistics are no "
+           f"longer those of all frames", rel, bad[0].lineno if bad else f.line, sample=[u(b)[:60] for b in bad])
+
+
 def _mutants():
     from selftest.mutate import Mutant as M
     _extra = [
         M("dim-resolved-before-stack-rank", "_feats.py", "if not concatenate:\n        D += 1", "dim = (dim + D) % D\n    if not concatenate:\n        D += 1", "dim-resolved-against-output-rank"),
         M("time-dim-against-output-rank", "_feats.py", "time_dim = (time_dim + D) % D\n    if not concatenate:\n        D += 1", "if not concatenate:\n        D += 1\n    time_dim = (time_dim + D) % D", "time_dim-resolved-against-input-rank"),
+        M("store-divides-sumsq-in-place", "_feats.py", "var = sumsq / count - mean.square()", "var = sumsq.div_(count) - mean.square()", "statistics-are-not-modified"),
+        M("store-scales-sum-in-place", "_feats.py", "self.mean = mean = sum_ / count", "sum_ /= count\n        self.mean = mean = sum_", "statistics-are-not-modified"),
         M("store-needs-two-frames", "_feats.py", "if count < (2 if bessel else 1):", "if count < 2:", "refuses-exactly-undefined-counts[bessel=False]"),
         M("store-divides-by-zero", "_feats.py", "if count < (2 if bessel else 1):", "if count < 1:", "refuses-exactly-undefined-counts[bessel=True]"),
         M("twin:threshold-by-lte", "_feats.py", "if count < (2 if bessel else 1):", "if count <= (1 if bessel else 0):", "", twin=True),
